@@ -338,19 +338,23 @@ def run_http(ctx: ShardCtx, res: ShardResult, mon: Monitor) -> None:
                 continue
             res.count('http.manifests_compared')
             rp = {'http_case': {'url': url, 'now': now.isoformat()}}
-            ast = doc.dt('availabilityStartTime')
+            try:
+                ast, pub = doc.dt('availabilityStartTime'), doc.dt('publishTime')
+                depth, mup = doc.dur('timeShiftBufferDepth'), doc.dur('minimumUpdatePeriod')
+            except Exception as err:
+                res.violation('manifest-timing-attribute-not-readable',
+                              f'{url}: {type(err).__name__}: {err} (object: AST {t.availabilityStartTime} publishTime '
+                              f'{t.publishTime} TSBD {t.timeShiftBufferDepth})', rp)
+                continue
             if ast is not None and ast != t.availabilityStartTime:
                 res.violation('manifest-availability-start-differs-from-timing',
                               f'{url}: MPD@availabilityStartTime {ast} vs {t.availabilityStartTime}', rp)
-            pub = doc.dt('publishTime')
             if pub is not None and pub != t.publishTime:
                 res.violation('manifest-publish-time-differs-from-timing',
                               f'{url}: MPD@publishTime {pub} vs {t.publishTime}', rp)
-            depth = doc.dur('timeShiftBufferDepth')
             if depth is not None and depth != t.timeShiftBufferDepth:
                 res.violation('manifest-time-shift-buffer-depth-differs-from-timing',
                               f'{url}: MPD@timeShiftBufferDepth {depth} vs {t.timeShiftBufferDepth}', rp)
-            mup = doc.dur('minimumUpdatePeriod')
             # a template that does not support update periods simply omits the attribute
             if mup is not None and mup != t.minimumUpdatePeriod:
                 res.violation('manifest-minimum-update-period-differs-from-timing',
